@@ -642,7 +642,7 @@ func runC16(w *fw.W) {
 	if tmpRoot == "" {
 		tmpRoot = os.TempDir()
 	}
-	for _, tk := range []string{"string", "raw-string", "comment", "identifier", "symbol", "embedded-piece", "many-tokens-one-line", "many-short-lines", "crlf"} {
+	for _, tk := range []string{"string", "raw-string", "comment", "identifier", "symbol", "embedded-piece", "many-tokens-one-line", "many-short-lines", "crlf", "raw-string-with-crlf", "multibyte-comment", "multibyte-string"} {
 		tk := tk
 		runBatch("script file "+tk, func(vs *violSet, dk map[string]struct{}, counters map[string]int, sample *string) {
 			if ip == nil {
@@ -653,7 +653,17 @@ func runC16(w *fw.W) {
 				panic("C16 harness: " + err.Error())
 			}
 			defer os.RemoveAll(dir)
-			for _, L := range []int{100, 4095, 4096, 4097, 65535, 65536, 65537, 70000, 131072, 200000} {
+			sizes := []int{100, 4095, 4096, 4097, 65535, 65536, 65537, 70000, 131072, 200000}
+			if strings.HasPrefix(tk, "multibyte") {
+				// multi-byte characters placed so that each of their bytes falls on 512 / 1024 / 4096 / 65536 in turn
+				sizes = nil
+				for _, edge := range []int{512, 1024, 4096, 65536} {
+					for d := -14; d <= 2; d++ {
+						sizes = append(sizes, edge+d)
+					}
+				}
+			}
+			for _, L := range sizes {
 				body := strings.Repeat("a", L)
 				var lines []string
 				switch tk {
@@ -683,9 +693,16 @@ func runC16(w *fw.W) {
 					lines = append(lines, "s.p")
 				case "crlf":
 					lines = []string{`s := "` + body + `"`, "s.len.p", "[1,", " 2].p"}
+				case "raw-string-with-crlf":
+					// a raw string keeps the bytes between its quotes, line ends included, whichever entry point reads the file
+					lines = []string{"s := `" + body[:L/2] + "\r\nb\rc\nd`", "s.len.p", "s[-8:].repr.p"}
+				case "multibyte-comment":
+					lines = []string{"# " + body[:L-10] + "日本語のコメント", `"after comment".p`}
+				case "multibyte-string":
+					lines = []string{"# " + body[:L-16], `s := "é日本語ü"`, "s.len.p"}
 				}
 				sep := "\n"
-				if tk == "crlf" {
+				if tk == "crlf" || tk == "raw-string-with-crlf" {
 					sep = "\r\n"
 				}
 				src := `"start".p` + sep + strings.Join(lines, sep) + sep + `"end".p` + sep
@@ -729,6 +746,23 @@ func runC16(w *fw.W) {
 						fmt.Sprintf("%s token of length %d in a test file: `pangaea test dir` printed %s (exit %d), expected %s (exit %d)",
 							tk, L, truncateMid(fmt.Sprintf("%q", tout.String()), 160), tcode, truncateMid(fmt.Sprintf("%q", wantT), 160), wantCode),
 						map[string]any{"token": tk, "length": L, "entry": "test-dir"})
+				}
+				// the same file loaded as a module: import / invite! evaluate its bytes like any other entry point
+				if wantCode == 0 && (L <= 4097 || strings.HasPrefix(tk, "multibyte")) {
+					for _, how := range []string{"import", "invite!"} {
+						mainFile := filepath.Join(dir, "main.txt")
+						mainSrc := how + "(\"./prog\")\n\"loaded\".p\n"
+						os.WriteFile(mainFile, []byte(mainSrc), 0o644)
+						var mout bytes.Buffer
+						mcode := runscript.RunSource(mainSrc, mainFile, strings.NewReader(""), &mout)
+						counters["script_file_runs"]++
+						if mout.String() != ref.Stdout+"loaded\n" || mcode != 0 {
+							vs.add(fmt.Sprintf("C16|module-%s|%s|size:%s", how, tk, sizeClass(L)),
+								fmt.Sprintf("%s token at offset %d in a module: a script doing %s(\"./prog\") printed %s (exit %d), the same bytes evaluated in process print %s",
+									tk, L, how, truncateMid(fmt.Sprintf("%q", mout.String()), 200), mcode, truncateMid(fmt.Sprintf("%q", ref.Stdout+"loaded\n"), 160)),
+								map[string]any{"token": tk, "length": L, "entry": how})
+						}
+					}
 				}
 				dk[fmt.Sprintf("file|%s|%d", tk, L)] = struct{}{}
 			}
